@@ -904,10 +904,10 @@ under an injection schedule σ (the database error at the k-th statement; the ou
 `Lemmas/FailX*.lean`, `Lemmas/FailInhX*.lean` prove by symbolic execution that the run ends exactly as the
 hand-compiled tree does under σ: same error, same statement log, same tables / link tables / instances (cached
 values, pending values, dirty, obsolete) / registered ids.  `PyFail.stepX` is the translated counterpart of `step`,
-`PyFail.Tied` says which operations it covers (and what a Python call can express: column numbers in range,
-keyword names distinct). -/
+`PyFail.Tied` says what a Python call can express (column numbers in range, keyword names distinct, the level lists
+of an inheritable create are what one constructor call produces); every operation kind of the model is covered. -/
 section Translated
-open SqlObjVerif.PyFail (stepX stepXS Tied QuietX viewObs runObs mkW vqOf kwPV setValueF setF Obs obs)
+open SqlObjVerif.PyFail (stepX stepXS Tied QuietX viewObs runObs mkW vqOf kwPV setValueF setF syncUpdateF sendStmt Obs obs)
 
 /-- `obj.col = v` on an EAGER class: the translated `_SO_setValue` under σ = the hand tree under σ -/
 theorem C06_translated_setattr_eager_eq_model (sch : Schema) (inj : Option Inj) (props : Nat → Extra) (s : St)
@@ -960,6 +960,26 @@ theorem C06_translated_set_extras_lazy_eq_model (sch : Schema) (inj : Option Inj
         (setProg sch c id (pd.filter fun e => e.1 < (clsOf sch c).cols.length)
           ((pd.filter fun e => ¬ e.1 < (clsOf sch c).cols.length).map fun e => props e.1) .done) s)) :=
   PyFail.setF_extras_lazy_eq sch inj props s c id pd hl hnd
+
+/-- **`obj.syncUpdate()`** of a lazy instance: the translated `syncUpdate` under σ = `syncProg` under σ — nothing
+    pending: no statement; else ONE UPDATE of the pending values in creation order, and only after it returned are
+    the pending values dropped and the dirty flag cleared (`_SO_createValues` is a dict of columns: distinct, in range) -/
+theorem C06_translated_syncUpdate_eq_model (sch : Schema) (inj : Option Inj) (props : Nat → Extra) (s : St) (c id : Nat)
+    (hp : ((pendingOf s c id).map (·.1)).Nodup ∧ ∀ e ∈ pendingOf s c id, e.1 < (clsOf sch c).cols.length) :
+    viewObs (syncUpdateF (mkW sch inj props s c id [])) = some (runObs (run sch inj (syncProg c id .done) s)) :=
+  PyFail.syncUpdateF_eq sch inj props s c id hp
+
+/-- … a refused UPDATE (rejected by the database or hit by the injected error): the translated `syncUpdate` raises
+    that error with the lock released, the tables / instances are untouched, and the pending values SURVIVE -/
+theorem C06_translated_syncUpdate_refused_keeps_pending (sch : Schema) (inj : Option Inj) (props : Nat → Extra) (s : St)
+    (c id : Nat)
+    (hp : ((pendingOf s c id).map (·.1)).Nodup ∧ ∀ e ∈ pendingOf s c id, e.1 < (clsOf sch c).cols.length)
+    (hne : pendingOf s c id ≠ []) (s1 : St) (e : Err)
+    (hs : sendStmt sch inj (.update c id (sortAsg (pendingOf s c id))) s = (s1, some e)) :
+    viewObs (syncUpdateF (mkW sch inj props s c id [])) = some (obs s1, some e) ∧
+    (∃ w, syncUpdateF (mkW sch inj props s c id []) = .exc w e ∧ w.lock = false ∧ obs w.s = obs s1) ∧
+    s1.core = s.core ∧ pendingOf s1 c id = pendingOf s c id :=
+  PyFail.syncUpdateF_refused sch inj props s c id hp hne s1 e hs
 
 /-- `Cls(id=…, **pk)`: the translated `__init__` → `_create` (default filling, the missing-keyword TypeError) →
     `set(**kw)` while `_creating` (the translated `set` itself) → `_SO_finishCreate` (sorted names / values, INSERT,
@@ -1022,14 +1042,41 @@ theorem C06_translated_plain_destroy_eq_model (sch : Schema) (hnp : FailDX.NoPar
     FailDX.destroyF sch inj fuel c id s = FailDX.outCall (run sch inj (destroyProg sch fuel c id .done) s) :=
   FailDX.C06_translated_destroy_eq_model sch hnp inj fuel c id s
 
-/-- every tied operation: the translated program under σ ends as `step` does -/
+/-- **inheritable create in ONE world, nothing assumed about the callees:** the translated
+    `InheritableSQLObject._create` calling itself along the class chain, whose `super()._create(id, **kw)` RUNS the
+    translated `SQLObject._create` (→ translated `set` → translated `_SO_finishCreate`) and whose
+    `self._parent.destroySelf()` RUNS the translated `destroySelf` (`FailDX.destroyI`), ends in the complete state
+    (ghost counter included) `createInh` ends in; `T` = the per-class defaults tables (`Agrees`: they are what `X.complete`
+    computes), `LevelsOk`: per level distinct column keywords in range and no required keyword missing -/
+theorem C06_translated_inheritable_create_one_world_eq_model (X : InhX.Ctx) (T : InhX.Tr) (hag : InhX.Agrees X T)
+    (hinh : ∀ c, (clsOf X.sch c).parent ≠ none → T.isInh c = true)
+    (w : InhX.FW) (c : Nat) (rest : List Nat) (es : List (InhX.PVal × InhX.PVal)) (tag : Option Nat)
+    (hch : Chain X.sch (c :: rest)) (hdep : (c :: rest).length ≤ X.depth)
+    (hnd : (es.map (·.1)).Nodup) (hreq : InhX.Required X (c :: rest) es)
+    (hok : InhX.LevelsOk X T (c :: rest) es tag) (n : Nat) (hn : (c :: rest).length ≤ n) (kwv : InhX.PVal)
+    (hkw : kwv = InhX.dictOf X (c :: rest) es tag ∨
+      kwv = .cons (.pair (.str "kw") (InhX.dictOf X (c :: rest) es tag)) .nil) :
+    InhX.outOf (InhX.createNT X T n w c .none kwv) =
+      some (run X.sch X.inj (createInh X.sch X.fuel (InhX.levelsOf X (c :: rest) es tag) fun _ => .done) w.st) :=
+  C06_translated_inheritable_create_composed_eq_model X T hag hinh w c rest es tag hch hdep hnd hreq hok n hn kwv hkw
+
+/-- `Tied` has a clause for EVERY operation of the model (none is excluded as such) -/
+theorem C06_translated_tied_covers_every_op_kind :
+    (∀ sch s c id col v, Tied sch s (.setattr c id col v) ↔ col < (clsOf sch c).cols.length) ∧
+    (∀ sch s c id, Tied sch s (.destroy c id)) ∧
+    (∀ sch s c pkw ckw, Tied sch s (.createChild c pkw ckw) ↔ InhX.TiedInh sch s (.createChild c pkw ckw)) ∧
+    (∀ sch s l, Tied sch s (.createChain l) ↔ InhX.TiedInh sch s (.createChain l)) :=
+  ⟨fun _ _ _ _ _ _ => Iff.rfl, fun _ _ _ _ => trivial, fun _ _ _ _ _ => Iff.rfl, fun _ _ _ => Iff.rfl⟩
+
+/-- every tied operation — attribute assignment, `set` with any keywords, `syncUpdate`, create, inheritable create
+    (`createChild` / `createChain`), `destroySelf` —: the translated program under σ ends as `step` does -/
 theorem C06_translated_step_eq_model (sch : Schema) (props : Nat → Extra) (s : St) (op : Op) (inj : Option Inj)
-    (hT : Tied sch op) : stepX sch props s op inj = some (runObs (step sch s op inj)) :=
+    (hT : Tied sch s op) : stepX sch props s op inj = some (runObs (step sch s op inj)) :=
   PyFail.stepX_eq_model sch props s op inj hT
 
 /-- a run of the translated program of a tied operation IS a run of the hand model -/
 theorem translated_run_is_step (sch : Schema) (props : Nat → Extra) (s : St) (op : Op) (inj : Option Inj)
-    (hT : Tied sch op) (o : Obs) (r : Option Err) (h : stepX sch props s op inj = some (o, r)) :
+    (hT : Tied sch s op) (o : Obs) (r : Option Err) (h : stepX sch props s op inj = some (o, r)) :
     ∃ s', step sch s op inj = (s', r) ∧ obs s' = o := by
   rw [C06_translated_step_eq_model sch props s op inj hT] at h
   simp only [runObs, Option.some.injEq, Prod.mk.injEq] at h
@@ -1039,7 +1086,7 @@ theorem translated_run_is_step (sch : Schema) (props : Nat → Extra) (s : St) (
     schedule satisfying the decidable, purely syntactic `AtomicSyn`: if the TRANSLATED program raises, tables, link
     tables, every instance and the registered ids are what they were. -/
 theorem C06_translated_failed_op_is_noop_syntactic (sch : Schema) (props : Nat → Extra) (s : St) (op : Op)
-    (inj : Option Inj) (o : Obs) (e : Err) (hT : Tied sch op) (hA : AtomicSyn sch s op inj)
+    (inj : Option Inj) (o : Obs) (e : Err) (hT : Tied sch s op) (hA : AtomicSyn sch s op inj)
     (h : stepX sch props s op inj = some (o, some e)) : o.core = s.core := by
   obtain ⟨s', hs, ho⟩ := translated_run_is_step sch props s op inj hT o _ h
   rw [← ho]
@@ -1076,7 +1123,7 @@ instance (sch : Schema) (props : Nat → Extra) (s : St) (op : Op) (inj : Option
     whatever made it raise, at whatever position of the schedule — leaves tables, link tables, every instance's
     cached / pending values and flags, and the registered ids exactly as they were. -/
 theorem C06_translated_failed_op_is_noop_partial (sch : Schema) (props : Nat → Extra) (s : St) (op : Op)
-    (inj : Option Inj) (o : Obs) (e : Err) (hT : Tied sch op) (hA : AtomicX sch props s op inj)
+    (inj : Option Inj) (o : Obs) (e : Err) (hT : Tied sch s op) (hA : AtomicX sch props s op inj)
     (h : stepX sch props s op inj = some (o, some e)) : o.core = s.core := by
   cases hA with
   | inl hq => exact C06_translated_frame sch props s op inj o _ h hq
@@ -1087,7 +1134,7 @@ theorem C06_translated_failed_op_is_noop_partial (sch : Schema) (props : Nat →
 
 /-- the translated program of a tied operation either completes or is a no-op -/
 theorem C06_translated_success_or_unchanged (sch : Schema) (props : Nat → Extra) (s : St) (op : Op)
-    (inj : Option Inj) (hT : Tied sch op) (hA : AtomicX sch props s op inj) :
+    (inj : Option Inj) (hT : Tied sch s op) (hA : AtomicX sch props s op inj) :
     ∃ o r, stepX sch props s op inj = some (o, r) ∧ (r = none ∨ o.core = s.core) := by
   have h := C06_translated_step_eq_model sch props s op inj hT
   refine ⟨_, _, h, ?_⟩
@@ -1099,7 +1146,7 @@ theorem C06_translated_success_or_unchanged (sch : Schema) (props : Nat → Extr
 
 /-- non-vacuity: a tied two-keyword `set()` whose second value is invalid; the translated program raises `Invalid`
     (evaluated: the interpreter runs the translated `set`) -/
-example : Tied [{ cols := [{}, {}] }] (.set 0 1 [(0, .ok (some 1)), (1, .bad)] []) ∧
+example : Tied [{ cols := [{}, {}] }] (mkSt [[⟨1, [some 7, some 8]⟩]] [inst 0 1 [some 7, some 8]]) (.set 0 1 [(0, .ok (some 1)), (1, .bad)] []) ∧
     (stepX [{ cols := [{}, {}] }] (fun _ => .unknown) (mkSt [[⟨1, [some 7, some 8]⟩]] [inst 0 1 [some 7, some 8]])
       (.set 0 1 [(0, .ok (some 1)), (1, .bad)] []) none).map (·.2) = some (some .invalid) := by
   constructor
@@ -1111,7 +1158,7 @@ example : Tied [{ cols := [{}, {}] }] (.set 0 1 [(0, .ok (some 1)), (1, .bad)] [
     UPDATE of the plain columns is rejected — so the full-strength statement is false of the translated source too -/
 theorem C06_translated_set_fk_by_object_full_FALSE :
     ¬ (∀ (sch : Schema) (props : Nat → Extra) (s : St) (op : Op) (inj : Option Inj) (o : Obs) (e : Err),
-        Tied sch op → stepX sch props s op inj = some (o, some e) → o.core = s.core) := by
+        Tied sch s op → stepX sch props s op inj = some (o, some e) → o.core = s.core) := by
   intro h
   have := h [{ cols := [{}, { unique := true }] }] (fun _ => .unknown)
     (mkSt [[⟨1, [some 1, some 1]⟩, ⟨2, [some 1, some 2]⟩]] [inst 0 1 [some 1, some 1]])
@@ -1125,7 +1172,7 @@ theorem C06_translated_set_fk_by_object_full_FALSE :
 /-- the witness `C06_create_db_error_after_insert_full_FALSE` through the TRANSLATED constructor: the error injected at
     statement 2 (the read-back SELECT of `_init`) leaves the inserted row and the registered instance -/
 theorem C06_translated_create_db_error_after_insert_full_FALSE :
-    Tied [{ cols := [{}] }] (.create 0 false [(0, .ok (some 5))] []) ∧
+    Tied [{ cols := [{}] }] (mkSt [[]] []) (.create 0 false [(0, .ok (some 5))] []) ∧
     (stepX [{ cols := [{}] }] (fun _ => .unknown) (mkSt [[]] []) (.create 0 false [(0, .ok (some 5))] [])
       (some ⟨2, .operational⟩)).map (fun r => (r.1.core.tabs, r.1.core.reg, r.2)) =
       some ([[⟨1, [some 5]⟩]], [(0, 1)], some .operational) := by
@@ -1147,6 +1194,19 @@ theorem C06_translated_destroy_full_FALSE :
         (fun r => (r.1.core.tabs, r.2)) =
       some ([[], [⟨1, [some 1, none]⟩], [⟨1, [some 1]⟩]], some .integrity) := by
   refine ⟨?_, ?_, ?_⟩ <;> decide +kernel
+
+/-- the witness `C06_inheritable_create_full_FALSE` through `stepX` (translated `InheritableSQLObject._create` +
+    translated `SQLObject._create` + translated `destroySelf`): statement 2 fails: orphan parent row; statement 4
+    fails: the clean-up deletes the parent row, the child row stays; interrupt at 3: cleaned up -/
+theorem C06_translated_inheritable_create_full_FALSE :
+    Tied W5.sch (mkSt [[], []] []) W5.op ∧
+    (stepX W5.sch (fun _ => .unknown) (mkSt [[], []] []) W5.op (some ⟨2, .operational⟩)).map (fun r => (r.1.core.tabs, r.2)) =
+      some ([[⟨1, [some 1, some 1]⟩], []], some .operational) ∧
+    (stepX W5.sch (fun _ => .unknown) (mkSt [[], []] []) W5.op (some ⟨4, .operational⟩)).map (fun r => (r.1.core.tabs, r.2)) =
+      some ([[], [⟨1, [some 1, none]⟩]], some .operational) ∧
+    (stepX W5.sch (fun _ => .unknown) (mkSt [[], []] []) W5.op (some ⟨3, .interrupt⟩)).map (fun r => (r.1.core, r.2)) =
+      some ((mkSt [[], []] []).core, some .interrupt) := by
+  refine ⟨?_, ?_, ?_, ?_⟩ <;> decide +kernel
 
 /-- … and it is quiet in the translated program's own ghost counter -/
 example : AtomicX [{ cols := [{}, {}] }] (fun _ => .unknown) (mkSt [[⟨1, [some 7, some 8]⟩]] [inst 0 1 [some 7, some 8]])
